@@ -34,7 +34,7 @@ import threading
 import time
 
 from .. import cgit
-from ..core import HarnessError, h64, run_hypothesis
+from ..core import HarnessError, Violation, h64, run_hypothesis
 from ..gen import c05_gen as G
 from ..model import c05_wire as W
 from ..model import packfmt
@@ -59,19 +59,20 @@ ASSUMPTIONS = [
     "git 2.39.5 is the reference peer and the reference reader of repositories (cat-file --batch-all-objects, fsck --connectivity-only)",
     "object ids/bytes come from the generator's own serialisers (self-tested against git fsck / cat-file / rev-list / pack-objects)",
     "SHA-1 repositories only; receivers are complete (closed under reachability) before the first transfer",
-    "a transfer that raises / exits non-zero is not judged (counted under xfer-failed:*); hangs are cut by a 30 s watchdog and counted",
+    "a transfer that raises / exits non-zero is not judged (counted under xfer-failed:*); hangs are cut by a 15 s watchdog and counted",
     "dulwich clients' capability sets are reduced through GitClient._fetch_capabilities (the only knob) to emulate older servers",
 ]
 
 _log = logging.getLogger("dulwich")
 ZERO = b"0" * 40
+CGIT = ("cgit", "cgith")  # transports whose client is C git (over git:// resp. smart HTTP against dulwich's servers)
 
 
 # ---------------------------------------------------------------------------
 # git subprocess helper with timeout
 
 
-def _git(args, cwd=None, extra_env=None, input=None, timeout=90):
+def _git(args, cwd=None, extra_env=None, input=None, timeout=120):
     cmd = [cgit.GIT] + cgit._COMMON + list(args)
     try:
         p = subprocess.run(cmd, cwd=cwd, input=input, capture_output=True, env=cgit.env(extra_env), timeout=timeout)
@@ -121,10 +122,12 @@ class Env:
         self.thread = None
         self.daemon = None
         self.daemon_port = None
+        self.http = None
+        self.http_thread = None
         os.environ.update(cgit.env())
         _log.setLevel(logging.CRITICAL)
         logging.getLogger("dulwich").propagate = False
-        socket.setdefaulttimeout(30)
+        socket.setdefaulttimeout(12)
 
     def dulwich_port(self):
         if self.srv is None:
@@ -134,6 +137,17 @@ class Env:
             self.thread = threading.Thread(target=self.srv.serve_forever, kwargs={"poll_interval": 0.02}, daemon=True)
             self.thread.start()
         return self.srv.server_address[1]
+
+    def http_port(self):
+        if self.http is None:
+            from dulwich.server import FileSystemBackend
+            from dulwich.web import WSGIRequestHandlerLogger, WSGIServerLogger, make_server, make_wsgi_chain
+
+            app = make_wsgi_chain(FileSystemBackend(self.root))
+            self.http = make_server("127.0.0.1", 0, app, handler_class=WSGIRequestHandlerLogger, server_class=WSGIServerLogger)
+            self.http_thread = threading.Thread(target=self.http.serve_forever, kwargs={"poll_interval": 0.02}, daemon=True)
+            self.http_thread.start()
+        return self.http.server_address[1]
 
     def gitd_port(self):
         if self.daemon is None:
@@ -169,6 +183,11 @@ class Env:
         return self.daemon_port
 
     def close(self):
+        if self.http is not None:
+            self.http.shutdown()
+            self.http.server_close()
+            self.http_thread.join(5)
+            self.http = None
         if self.srv is not None:
             self.srv.shutdown()
             self.srv.server_close()
@@ -294,7 +313,7 @@ class Universe:
 def receiver_model(h, r):
     """-> (ids the receiver holds, its refs, own History|None)."""
     n = len(h.commit_ids)
-    tips = [t % n for t in r["tips"]]
+    tips = sorted({t % max(1, n - 1) for t in r["tips"]})  # never the newest commit (unless it is the only one)
     tag_idx = [k for k in r.get("tags", []) if k < len(h.tag_ids)]
     ids = set(h.closure([h.commit_ids[t] for t in tips] + [h.tag_ids[k] for k in tag_idx]))
     refs = {}
@@ -423,10 +442,27 @@ def required_with_depth(u, tips, depth):
     return req
 
 
-def judge_pack(ctx, where, pack, u, h, want_tips, adv_values, include_tag, check, case, have_ids=None, follow_present=False):
+class _Muted:
+    """ctx stand-in used when the *sender* is C git (the reference, not the code under test): oracle-2 findings about
+    its packs are counted, never reported."""
+
+    def __init__(self, ctx):
+        self.ctx = ctx
+
+    def fail(self, bucket, message, check, case):
+        self.ctx.label("cgit-sender:" + bucket.split(":", 3)[3])
+        return False
+
+    def label(self, *a, **k):
+        self.ctx.label(*a, **k)
+
+
+def judge_pack(ctx, where, pack, u, h, want_tips, adv_values, include_tag, check, case, have_ids=None, follow_present=False, sender_is_dulwich=True):
     """Oracle 2 on a captured pack (or several back to back).  Returns (ids set | None, thin bool)."""
     if not pack:
         return set(), False
+    if not sender_is_dulwich:
+        ctx = _Muted(ctx)
     try:
         res = {"objs": {}, "thin_bases": set()}
         for one in W.split_packs(pack):
@@ -446,21 +482,33 @@ def judge_pack(ctx, where, pack, u, h, want_tips, adv_values, include_tag, check
     want_closure = u.closure([w for w in want_tips if w in u.objs])
     allowed = set(want_closure)
     if include_tag:
-        allowed |= tag_follow_allowance(h, want_closure | (have_ids if follow_present and have_ids else set()), adv_values)
-    extra = ids - allowed
+        followed = tag_follow_allowance(h, want_closure | (have_ids if follow_present and have_ids else set()), adv_values)
+        allowed |= followed
+        if follow_present:
+            # C git asks for the tags it decided to follow in a second connection: there they are ordinary wants
+            allowed |= u.closure(followed)
+    # (a) nothing unreachable from the refs the sender advertises -- whatever the client asked for
+    adv_closure = u.closure([v for v in adv_values if v in u.objs])
+    outside = ids - adv_closure
+    if outside:
+        ctx.fail(f"C05:{where}:sent-object-unreachable-from-advertised-refs:{types_of(u, outside)}",
+                 f"{where}: pack contains {len(outside)} object(s) not reachable from any advertised ref: {sorted(outside)[:3]!r} "
+                 f"({types_of(u, outside)})", check, case)
+    # (b) nothing outside the closure of what was asked for (+ tags followed at the client's request)
+    extra = ids - allowed - outside
     if extra:
-        adv_closure = u.closure([v for v in adv_values if v in u.objs])
-        outside = extra - adv_closure
-        if outside:
-            ctx.fail(f"C05:{where}:sent-object-unreachable-from-advertised-refs:{types_of(u, outside)}",
-                     f"{where}: pack contains {len(outside)} object(s) not reachable from any advertised ref: {sorted(outside)[:3]!r}", check, case)
-        else:
-            ctx.fail(f"C05:{where}:sent-object-outside-closure-of-wants:{types_of(u, extra)}",
-                     f"{where}: pack contains {len(extra)} object(s) outside closure(wants){' + followed tags' if include_tag else ''}: "
-                     f"{sorted(extra)[:3]!r} types {types_of(u, extra)}", check, case)
+        ctx.fail(f"C05:{where}:sent-object-outside-closure-of-wants:{types_of(u, extra)}",
+                 f"{where}: pack contains {len(extra)} object(s) outside closure(wants){' + followed tags' if include_tag else ''}: "
+                 f"{sorted(extra)[:3]!r} types {types_of(u, extra)}", check, case)
+    thin = res["thin_bases"] - ids
     if have_ids is not None:
         ctx.label("oversend" if ids & have_ids else "no-oversend")
-    return ids, bool(res["thin_bases"])
+        nobase = thin - have_ids
+        if nobase:
+            ctx.fail(f"C05:{where}:thin-base-not-in-receiver:{types_of(u, nobase)}",
+                     f"{where}: the pack holds REF delta(s) against {sorted(nobase)[:3]!r}, which are neither in the pack nor among the objects the "
+                     f"receiver has: the receiver cannot reconstruct the delivered objects", check, case)
+    return ids, bool(thin)
 
 
 # ---------------------------------------------------------------------------
@@ -507,7 +555,7 @@ def _one_conv(ctx, env, h, u, spath, port, case, conv, check):
     adv_values = set(h.refs.values()) | ({h.head_id} if h.head_id else set())
     wants = [_resolve_id(h, u, w) for w in conv["wants"]]
     n = len(h.commit_ids)
-    have_commits = sorted(h.ancestors([t % n for t in conv["have_tips"]]))
+    have_commits = sorted(h.ancestors([t % max(1, n - 1) for t in conv["have_tips"]]))
     have_ids_list = [h.commit_ids[i] for i in have_commits]
     # order: drawn permutation key
     order = conv.get("order", 0)
@@ -524,7 +572,7 @@ def _one_conv(ctx, env, h, u, spath, port, case, conv, check):
     one = dict(hist=case["hist"], sender=case["sender"], convs=[conv])
     try:
         r = W.raw_upload_pack("127.0.0.1", port, spath.encode(), wants, sent_haves, caps, done=conv.get("done", True),
-                              flush_every=conv.get("flush_every", 0), timeout=30.0)
+                              flush_every=conv.get("flush_every", 0), timeout=10.0)
     except (socket.timeout, TimeoutError):
         ctx.label("raw:timeout")
         ctx.case(("raw", h64(repr(one))), nontrivial=False, labels=("raw",))
@@ -566,6 +614,8 @@ def _one_conv(ctx, env, h, u, spath, port, case, conv, check):
             feats.add("hostile-want")
     pack = r["pack"]
     served = bool(pack)
+    if os.environ.get("VF_C05_DEBUG") and hostile:
+        print("HOSTILE", labels, served, r["error"], r["acks"][:3], conv["wants"], case["sender"], flush=True)
     labels.add("raw:served" if served else "raw:not-served")
     if served:
         ids, thin = judge_pack(ctx, "raw", pack, u, h, wants, adv_values, b"include-tag" in caps, check, one, have_ids=virtual)
@@ -604,11 +654,37 @@ def _mk_client(kind, env, o):
         return dc.LocalGitClient(thin_packs=thin, include_tags=inctag)
     if kind in ("tcp", "gitd"):
         base = dc.TCPGitClient
+    elif kind == "http":
+        base = dc.Urllib3HttpGitClient
     else:
         base = dc.SubprocessGitClient
 
     class Tee(base):
         captured = None
+        vf_wait_first = False
+
+        def _connect(self, cmd, path, protocol_version=None):
+            # Scheduling only: for depth-limited fetches let the first can_read() poll wait until the server's answer to
+            # "deepen N" + flush has arrived (a server is free to answer immediately and a client's graph walker is free to
+            # be slow), so that the outcome does not depend on thread timing.  _connect is the documented extension point
+            # of TraditionalGitClient.
+            proto, can_read, stderr = super()._connect(cmd, path, protocol_version)
+            if not (self.vf_wait_first and cmd == b"upload-pack" and can_read is not None and protocol_version != 2):
+                return proto, can_read, stderr
+            state = {"first": True}
+
+            def can_read_wait():
+                if state["first"]:
+                    state["first"] = False
+                    t0 = time.monotonic()
+                    while time.monotonic() - t0 < 3.0:
+                        if can_read():
+                            return True
+                        time.sleep(0.002)
+                    return False
+                return can_read()
+
+            return proto, can_read_wait, stderr
 
         def fetch_pack(self, path, determine_wants, graph_walker, pack_data, *a, **kw):
             self.captured = []
@@ -630,6 +706,8 @@ def _mk_client(kind, env, o):
         c = Tee("127.0.0.1", port=env.dulwich_port(), thin_packs=thin, include_tags=inctag)
     elif kind == "gitd":
         c = Tee("127.0.0.1", port=env.gitd_port(), thin_packs=thin, include_tags=inctag)
+    elif kind == "http":
+        c = Tee(f"http://127.0.0.1:{env.http_port()}/", thin_packs=thin, include_tags=inctag)
     else:
         c = Tee(thin_packs=thin, include_tags=inctag)
         c.git_command = [cgit.GIT] + cgit._COMMON
@@ -639,7 +717,7 @@ def _mk_client(kind, env, o):
         caps.discard(b"multi_ack_detailed")
     if mack < 1:
         caps.discard(b"multi_ack")
-    if kind != "tcp":  # dulwich's server refuses clients without these
+    if kind not in ("tcp", "http"):  # dulwich's server refuses clients without these
         if not o.get("ofs", True):
             caps.discard(b"ofs-delta")
         if not o.get("sideband", True):
@@ -699,7 +777,7 @@ def _one_step(ctx, env, st, case, n, step, check):
     names = sorted(sender_refs)
     adv_values = set(sender_refs.values()) | ({h.head_id} if h.head_id else set())
     depth = o.get("depth") if op in ("fetch", "clone") else None
-    include_tag = (bool(o.get("inctag")) and tr != "local") or (tr == "cgit" and op in ("fetch", "clone") and o.get("tagmode", 0) != 1)
+    include_tag = (bool(o.get("inctag")) and tr != "local") or (tr in CGIT and op in ("fetch", "clone") and o.get("tagmode", 0) != 1)
     labels = {"xfer", "op:" + op, "tr:" + tr, "step%d" % n}
     rpath = st.rpath
     captured = None
@@ -707,13 +785,13 @@ def _one_step(ctx, env, st, case, n, step, check):
     tips = []
     t_err = None
     try:
-        with _watchdog(40):
+        with _watchdog(15):
             if op == "clone":
                 rpath = os.path.join(st.root, "clone%d" % n)
                 tips = sorted(adv_values)
                 st.objs, st.refs = {}, {}
                 captured, new_refs = _do_clone(env, st, tr, o, rpath, depth)
-                if tr == "cgit":  # git chooses what a clone takes (e.g. tags it can follow): judge the refs it created
+                if tr in CGIT:  # git chooses what a clone takes (e.g. tags it can follow): judge the refs it created
                     tips = sorted(set(new_refs.values()))
             elif op == "fetch":
                 sel = None if step.get("wants") is None else _select(names, step["wants"])
@@ -726,6 +804,11 @@ def _one_step(ctx, env, st, case, n, step, check):
                 raise HarnessError(f"unknown op {op!r}")
     except _Timeout:
         t_err = "timeout"
+        if os.environ.get("VF_C05_DEBUG"):
+            import traceback
+
+            traceback.print_exc()
+            print("TIMEOUT-CASE", repr(sub), flush=True)
     except _XferFailed as e:
         t_err = e.args[0]
     except HarnessError:
@@ -767,15 +850,30 @@ def _one_step(ctx, env, st, case, n, step, check):
     feats = features(h, u, set(st.objs), tips, depth=depth)
     if captured is not None:
         ids, thin = judge_pack(ctx, where, captured, u, h, tips, adv_values if op != "push" else set(u.objs), include_tag, check, sub,
-                               have_ids=set(st.objs), follow_present=(tr == "cgit"))
+                               have_ids=set(st.objs), follow_present=(tr in CGIT),
+                               sender_is_dulwich=not (op in ("fetch", "clone") and tr in ("sub", "gitd")))
         if thin:
             feats.add("thin-on-wire")
+            labels.add(f"thin:{where}")
             feats |= features(h, u, set(st.objs), tips, thin=True, depth=depth)
         labels.add("wire-captured")
     # ---- refs + connectivity ----------------------------------------------------------------
-    if op == "fetch" and tr != "cgit" and new_refs:
+    if op == "fetch" and tr not in CGIT and new_refs:
         G.write_refs(rpath, new_refs, ("sym", b"refs/heads/r0"))
-    if not miss and (new_refs or op != "fetch"):
+    shallow_bad = False
+    if depth and not miss:
+        try:
+            with open(os.path.join(rpath, "shallow"), "rb") as f:
+                shallow = set(f.read().split())
+        except FileNotFoundError:
+            shallow = set()
+        undeclared = sorted(c for c in required if u.objs[c][0] == b"commit" and c not in shallow and any(p not in after for p in _parents(u, c)))
+        if undeclared:
+            shallow_bad = True
+            ctx.fail(f"C05:{op}:{'net' if tr in ('tcp', 'sub', 'gitd') else tr}:shallow-file-lacks-boundary",
+                     f"{where} depth={depth} succeeded; commit(s) {undeclared[:3]!r} were delivered without (all of) their parents but the receiver's "
+                     f"shallow file lists only {sorted(shallow)!r}: the repository is not complete (git fsck reports broken links)", check, sub)
+    if not miss and not shallow_bad and (new_refs or op != "fetch"):
         rc, out, err = _git(["fsck", "--connectivity-only"], cwd=rpath)
         if rc != 0:
             ctx.fail(f"C05:{where}:fsck-connectivity", f"{where}: git fsck --connectivity-only exits {rc} on the receiver after the transferred refs "
@@ -825,8 +923,8 @@ def _do_fetch(env, st, tr, o, sel, sender_refs, adv_values, depth, n, labels):
     from dulwich.repo import Repo
 
     h, u = st.h, st.u
-    if tr == "cgit":
-        return _cgit_fetch(env, st, o, sel, sender_refs, depth, n, labels)
+    if tr in ("cgit", "cgith"):
+        return _cgit_fetch(env, st, tr, o, sel, sender_refs, depth, n, labels)
     if sel is None:
         tips = sorted(adv_values)
         dw = None
@@ -846,8 +944,12 @@ def _do_fetch(env, st, tr, o, sel, sender_refs, adv_values, depth, n, labels):
     kw = {}
     if depth:
         kw["depth"] = depth
+        if tr != "local":
+            client.vf_wait_first = True
     if tr == "gitd" and o.get("proto") is not None:
         kw["protocol_version"] = o["proto"]
+    elif tr == "gitd" and depth:
+        kw["protocol_version"] = 0
     captured = None
     with Repo(st.rpath) as target:
         if tr == "local":
@@ -860,7 +962,7 @@ def _do_fetch(env, st, tr, o, sel, sender_refs, adv_values, depth, n, labels):
                 captured = b"".join(chunks)
             res = client.fetch(path, target, determine_wants=dw, **kw)
         else:
-            res = client.fetch(path.encode(), target, determine_wants=dw, **kw)
+            res = client.fetch(path if tr == "http" else path.encode(), target, determine_wants=dw, **kw)
             captured = b"".join(client.captured or [])
             labels.add("proto:v%d" % client.protocol_version)
     got = {k: v for k, v in res.refs.items() if not k.endswith(b"^{}")}
@@ -876,9 +978,14 @@ def _do_fetch(env, st, tr, o, sel, sender_refs, adv_values, depth, n, labels):
     return captured, tips, new_refs
 
 
-def _cgit_fetch(env, st, o, sel, sender_refs, depth, n, labels):
-    port = env.dulwich_port()
-    url = f"git://127.0.0.1:{port}{st.spath}"
+def _cgit_url(env, tr, path):
+    if tr == "cgith":
+        return f"http://127.0.0.1:{env.http_port()}{path}"
+    return f"git://127.0.0.1:{env.dulwich_port()}{path}"
+
+
+def _cgit_fetch(env, st, tr, o, sel, sender_refs, depth, n, labels):
+    url = _cgit_url(env, tr, st.spath)
     trace = os.path.join(st.root, "trace%d.pack" % n)
     args = ["-c", "protocol.version=%d" % o.get("proto", 0)]
     args += ["fetch", "-q"]
@@ -904,7 +1011,7 @@ def _cgit_fetch(env, st, o, sel, sender_refs, depth, n, labels):
         for name, t in sorted(sender_refs.items()):
             if name.startswith(b"refs/tags/") and t not in tips:
                 tips.append(t)
-    rc, out, err = _git(args, cwd=st.rpath, extra_env={"GIT_TRACE_PACKFILE": trace})
+    rc, out, err = _git(args, cwd=st.rpath, extra_env={"GIT_TRACE_PACKFILE": trace}, timeout=20)
     if rc != 0:
         if os.environ.get("VF_C05_DEBUG"):
             print("GITFAIL", args, err, flush=True)
@@ -925,14 +1032,13 @@ def _cgit_fetch(env, st, o, sel, sender_refs, depth, n, labels):
 
 def _do_clone(env, st, tr, o, rpath, depth):
     h = st.h
-    if tr == "cgit":
-        port = env.dulwich_port()
-        url = f"git://127.0.0.1:{port}{st.spath}"
+    if tr in ("cgit", "cgith"):
+        url = _cgit_url(env, tr, st.spath)
         args = ["-c", "protocol.version=%d" % o.get("proto", 0), "clone", "-q", "--mirror"]
         if depth:
             args += ["--depth=%d" % depth, "--no-single-branch"]
         trace = os.path.join(st.root, "trace-clone.pack")
-        rc, out, err = _git(args + [url, rpath], extra_env={"GIT_TRACE_PACKFILE": trace})
+        rc, out, err = _git(args + [url, rpath], extra_env={"GIT_TRACE_PACKFILE": trace}, timeout=20)
         if rc != 0:
             raise _XferFailed("git-exit-%d" % rc)
         captured = None
@@ -961,21 +1067,20 @@ def _do_push(env, st, tr, o, sel, sender_refs, labels):
 
     h, u = st.h, st.u
     new = {k: sender_refs[k] for k in sel}
-    if tr == "cgit":
-        port = env.dulwich_port()
-        url = f"git://127.0.0.1:{port}{st.rpath}"
+    if tr in ("cgit", "cgith"):
+        url = _cgit_url(env, tr, st.rpath)
         args = ["push", "-q"]
         if not o.get("thin", True):
             args.append("--no-thin")
         args.append(url)
         for k in sel:
             args.append(b"+" + k + b":" + k)
-        rc, out, err = _git(args, cwd=st.spath)
+        rc, out, err = _git(args, cwd=st.spath, timeout=20)
         if rc != 0:
             raise _XferFailed("git-exit-%d" % rc)
         captured = None
     else:
-        client = _mk_client({"tcp": "tcp", "sub": "sub", "local": "local", "gitd": "gitd"}[tr], env, o)
+        client = _mk_client(tr, env, o)
         records = {}
 
         with Repo(st.spath) as src:
@@ -990,7 +1095,7 @@ def _do_push(env, st, tr, o, sel, sender_refs, labels):
                 out.update(new)
                 return out
 
-            path = st.rpath if tr == "local" else st.rpath.encode()
+            path = st.rpath if tr in ("local", "http") else st.rpath.encode()
             res = client.send_pack(path, update, gen)
             status = getattr(res, "ref_status", None) or {}
             failed = {k: v for k, v in status.items() if v is not None}
@@ -1024,9 +1129,10 @@ def _strategies():
     gs = G.strategies()
     history = gs["history"]
     sender = st.fixed_dictionaries({
-        "layout": st.sampled_from(["gitpack", "loose", "gitpack2", "dulpack", "gitbitmap", "gitpack", "gitpack2", "gitbitmap2"]),
+        "layout": st.sampled_from(["gitpack", "loose", "gitpack2", "dulpack", "gitbitmap", "gitpack", "gitpack2", "gitpack", "loose", "dulpack",
+                                   "gitbitmap2"]),
         "packed_refs": st.booleans(),
-        "cgraph": st.sampled_from([False, False, True]),
+        "cgraph": st.booleans(),
     })
     idref = st.one_of(
         st.tuples(st.just("adv"), st.integers(0, 7)),
@@ -1060,7 +1166,7 @@ def _strategies():
                 caps.append(c)
         return {
             "wants": wants,
-            "have_tips": draw(st.lists(st.integers(0, 8), min_size=0, max_size=3, unique=True)),
+            "have_tips": draw(st.lists(st.integers(0, 8), min_size=0 if draw(st.integers(0, 9)) < 2 else 1, max_size=3, unique=True)),
             "order": draw(st.sampled_from([0, 0, 1, 2, 3, 4])),
             "absent_haves": draw(st.lists(st.tuples(st.integers(0, 9), st.integers(0, 5)), max_size=2)),
             "caps": caps,
@@ -1071,7 +1177,8 @@ def _strategies():
     raw_case = st.fixed_dictionaries({"hist": history(), "sender": sender, "convs": st.lists(conv(), min_size=1, max_size=4)})
 
     recv = st.fixed_dictionaries({
-        "tips": st.lists(st.integers(0, 8), min_size=0, max_size=3, unique=True),
+        "tips": st.one_of(st.lists(st.integers(0, 8), min_size=1, max_size=3, unique=True), st.lists(st.integers(0, 8), min_size=1, max_size=3, unique=True),
+                          st.lists(st.integers(0, 8), min_size=1, max_size=3, unique=True), st.just([])),
         "how": st.lists(st.sampled_from(["heads", "heads", "heads", "same", "tags", "remotes"]), min_size=3, max_size=3),
         "tags": st.lists(st.integers(0, 3), max_size=2, unique=True),
         "own": st.sampled_from([0, 0, 0, 1, 2]),
@@ -1084,26 +1191,26 @@ def _strategies():
     def step(draw, first):
         op = draw(st.sampled_from(["fetch"] * 6 + ["push"] * 3 + (["clone"] * 2 if first else [])))
         if op == "push":
-            tr = draw(st.sampled_from(["local", "local", "tcp", "tcp", "sub", "sub", "cgit"]))
+            tr = draw(st.sampled_from(["local", "local", "tcp", "tcp", "sub", "sub", "http", "cgit", "cgith"]))
         else:
-            tr = draw(st.sampled_from(["local", "local", "tcp", "tcp", "tcp", "sub", "sub", "gitd", "gitd", "cgit"]))
+            tr = draw(st.sampled_from(["local", "local", "tcp", "tcp", "tcp", "sub", "sub", "gitd", "gitd", "http", "http", "cgit", "cgith"]))
         o = {}
-        if tr in ("tcp", "sub", "gitd"):
+        if tr in ("tcp", "sub", "gitd", "http"):
             o["mack"] = draw(st.sampled_from([2, 1, 2, 2, 2, 0]))
             o["inctag"] = draw(st.integers(0, 9)) < 4
-            if tr != "tcp":
+            if tr not in ("tcp", "http"):
                 o["thin"] = draw(st.integers(0, 9)) < 7
                 o["ofs"] = draw(st.integers(0, 9)) < 7
                 o["sideband"] = draw(st.integers(0, 9)) < 8
             if tr == "gitd":
                 o["proto"] = draw(st.sampled_from([None, 0, 2, 2]))
-        elif tr == "cgit":
+        elif tr in CGIT:
             o["proto"] = draw(st.sampled_from([0, 0, 2]))
             o["tagmode"] = draw(st.sampled_from([0, 0, 1, 2]))
             o["thin"] = draw(st.booleans())
         if op == "fetch":
             o["dup"] = draw(st.integers(0, 9)) < 2
-        wants = draw(st.one_of(st.none(), st.lists(st.integers(0, 9), min_size=1, max_size=3))) if op == "fetch" and tr != "cgit" else \
+        wants = draw(st.one_of(st.none(), st.lists(st.integers(0, 9), min_size=1, max_size=3))) if op == "fetch" and tr not in CGIT else \
             draw(st.lists(st.integers(0, 9), min_size=1, max_size=3))
         if op in ("fetch", "clone") and draw(st.integers(0, 9)) < 1:
             o["depth"] = draw(st.integers(1, 3))
@@ -1185,24 +1292,51 @@ def selftest(ctx):
 # run / replay
 
 
+def _collecting(fn):
+    """Run one generated case; oracle failures are recorded (smallest case per bucket wins) and the search goes on.
+
+    Hypothesis is used as a generator only: transfers go through real sockets and subprocesses, so replaying an example
+    inside Hypothesis (shrinking, flakiness detection) buys little and a single timing-dependent case would abort the
+    whole shard as Flaky.  Every recorded case is re-executed by `replay` from the replay file.
+    """
+
+    def test(ctx, value):
+        if time.monotonic() - _T0 > ctx.scale(50, 26 * 60):
+            # wall-clock guard (machine overloaded / peers hanging): stops the *search* early, never decides a case
+            ctx.inconclusive = True
+            ctx.label("skipped-by-wall-clock-guard")
+            return
+        try:
+            fn(ctx, value)
+        except Violation as v:
+            ctx.record_violation(v.bucket, v.message, v.check, v.case)
+
+    return test
+
+
+_T0 = time.monotonic()
+
+
 def _part(ctx, item):
     n_xfer, n_raw = item
     raw_case, xfer_case = _strategies()
     try:
-        run_hypothesis(ctx, xfer_case, lambda c, v: exec_xfer(c, v), max_examples=n_xfer, shrink=ctx.thorough)
-        run_hypothesis(ctx, raw_case, lambda c, v: exec_raw(c, v), max_examples=n_raw, shrink=ctx.thorough)
+        run_hypothesis(ctx, xfer_case, _collecting(exec_xfer), max_examples=n_xfer, shrink=False)
+        run_hypothesis(ctx, raw_case, _collecting(exec_raw), max_examples=n_raw, shrink=False)
     finally:
         close_env()
 
 
 def run(ctx):
+    global _T0
+    _T0 = time.monotonic()
     try:
         selftest(ctx)
     finally:
         close_env()
     ctx.note("git_version", cgit.version())
-    n_raw = ctx.scale(15, 600)
-    n_xfer = ctx.scale(30, 1500)
+    n_raw = ctx.scale(40, 800)
+    n_xfer = ctx.scale(75, 1800)
     ctx.parallel(_part, [(n_xfer, n_raw)] * 16)
 
 
